@@ -59,6 +59,10 @@ class T:
             return f"({self.args[0].pretty()} {self.name} {self.args[1].pretty()})"
         if o == "item":
             return f"{self.args[0].pretty()}#{self.name}"
+        if o == "cmp" and len(self.args) == 2:
+            return f"({self.args[0].pretty()} {self.name} {self.args[1].pretty()})"
+        if o == "bool" and self.name:
+            return f"{self.name}({', '.join(a.pretty() for a in self.args)})"
         return f"{o}({', '.join(a.pretty() for a in self.args)})"
 
     def walk(self):
